@@ -278,8 +278,11 @@ def _independence(shard, ctx, res, only):
         pyf, _disp = _pyfunc(kernel)
         sk = S.split_kernel(pyf, kernel)
     except Exception as e:  # noqa: BLE001
+        # the source-level model cannot express this kernel (e.g. a prange loop inside another loop): not a violation by itself;
+        # the kernel is left to the compiled conformance run and the gap is reported as a cap
         res.evaluations += 1
-        res.violation({"site": f"kernels.{kernel}", "symptom": "kernel cannot be split at its prange loop", "detail": type(e).__name__}, {"shard": shard, "inner": None}, repr(e))
+        res.outcome("independence/unsplittable")
+        res.caps.append(f"{kernel}: python definition could not be split at its prange loop ({type(e).__name__}: {e}); only the compiled conformance run decides it")
         return
     if sk.carried:
         # a scalar (re)assigned in the body and defined before the loop is a numba reduction / carried variable: the nested-function model
